@@ -1055,6 +1055,20 @@ def commb_values(rng, tier):
         st = [1] * 3
         st[k] = 0
         V.append(mb40(2000, 2000, 2132, st=tuple(st)))
+    # a group reported as "not available" the way Doc 9871 prescribes - status bit cleared AND the value field all zero - next to four
+    # (two) valid groups: still not a register with all status bits set (round 12)
+    for k in range(5):
+        st = [1] * 5
+        st[k] = 0
+        v50, v60 = [10, 100, 200, 4, 190], [100, 300, 200, 5, 5]
+        v50[k] = v60[k] = 0
+        V += [mb50(*v50, st=tuple(st)), mb60(*v60, st=tuple(st))]
+    for k in range(3):
+        st = [1] * 3
+        st[k] = 0
+        v40 = [2000, 2000, 2132]
+        v40[k] = 0
+        V.append(mb40(*v40, st=tuple(st)))
     V += [mb40(2000, 2000, 2132, rsv40=1), mb40(2000, 2000, 2132, rsv40=128), mb40(2000, 2000, 2132, rsv52=1), mb40(2000, 2000, 2132, rsv52=2),
           mb40(0, 2000, 2132), mb40(2000, 0, 2132), mb40(2000, 2000, 0), mb40(4095, 1, 4095), mb40(1, 4095, 1),
           mb50(0, 100, 200, 4, 190), mb50(10, 0, 200, 4, 190), mb50(10, 100, 0, 4, 190), mb50(10, 100, 200, 0, 190), mb50(10, 100, 200, 4, 0),
@@ -1995,6 +2009,9 @@ def cli_pair_events(rng, n):
     variants = [('O', ['--observer-coord=52.25,3.92'], ['--observer-coord=-45,170']),      # on top of the traffic / on the far side of the globe
                 ('O', ['--observer-coord=52.0,-8.0'], ['--observer-coord=35.7,139.7']),
                 ('O', ['--observer-coord=-33.9,151.2'], ['--observer-coord=64.1,-21.9']),
+                # a value -O cannot make sense of leaves the process without an observer: no distance, everything else as before (round 12)
+                ('O', ['--observer-coord=52.0,-8.0'], ['--observer-coord=52.66N 8.62W']),
+                ('O', [], ['--observer-coord=nowhere']),
                 ('l', [], ['-l', os.path.join(wd, 'err.log'), '-M', '17', '-M', '4']),
                 ('M', [], ['-M', '17', '-M', '20']),
                 ('D', [], ['-D', os.path.join(wd, 'dl.log')]),
@@ -2209,6 +2226,9 @@ def c18(tier):
     r = vlib.tlc_model('MC_tcp', workers=8, timeout=1200)
     rep.add_model(r, 'TCP life-cycle model: all scripts of <= 3 faults over {refuse, close, frames, partial+reset, partial+close, junk} then a healthy connection: '
                      'ConnKeepsTable, NoLoss, PauseRespected (safety) and Recovers (liveness under weak fairness)')
+    if tier == 'thorough':
+        r = vlib.tlc_model('MC_tcp', cfg='MC_tcp_deep.cfg', workers=8, timeout=1800)
+        rep.add_model(r, 'the same model with scripts of <= 5 faults (9 331 scripts, clock to 32 s): the same four properties')
     apalache_ind(rep, 'C18', 'TcpInd', 'any number and order of faults, unbounded clock, Pause in 1..100000: nothing learned is lost, what a '
                  'connection delivered is in the table while it is up, no attempt sooner than Pause after a refused one')
     binary = vlib.build_cli('release')
@@ -2441,6 +2461,16 @@ def junk_lines(rng):
     J += [[4], [26], [27], [3], [0x1c], [12]]
     J += [list((good + ';      <- dropped by the feeder, bad checksum').encode()), list((rec2 + '\r' + ' ' * 70 + rec2).encode()),
           list((good + '\t' * 50 + '7' * 70000).encode()), list(('@%012X' % 77 + rec2 + ';' + '-' * 40 + 'c').encode())]
+    # a byte that is not valid UTF-8 (alone, or the first byte of a two-byte sequence) in the place of every digit of a time-stamped
+    # and of a plain record, long and short: one digit short of a frame whatever the byte is taken for (round 12: an index computed
+    # on the decoded text that lands inside a replacement character)
+    for v in ('@%012X' % 0x1234567 + good + ';', '@%012X' % 0x89abcd + rec2 + ';', '*' + good + ';', rec2):
+        b = list(v.encode())
+        for k_, c in enumerate(b):
+            if chr(c) in '0123456789ABCDEFabcdef':
+                J.append(b[:k_] + [0xFF] + b[k_ + 1:])
+                if k_ % 3 == 0:
+                    J.append(b[:k_] + [0xC3] + b[k_ + 1:])
     return J
 
 
@@ -2671,7 +2701,7 @@ def c19(tier):
             g += [run1(l, slot=0, tag=tag), run1(l, slot=1, tag=tag)]
         groups.append(g)
     conform(rep, 'C19', groups, maxlen=3000)
-    evs = cli_pair_events(rng, 7 if tier == 'quick' else 140)
+    evs = cli_pair_events(rng, 9 if tier == 'quick' else 180)
     trc = os.path.join(vlib.workdir(), 'c19cli.trace.ndjson')
     vlib.write_ndjson(trc, evs)
     rep.add_validation(vlib.validate([trc], 'C19'), key_fn=lambda e: (e['opt'], tuple(map(tuple, e['lines'][:5]))))
